@@ -125,7 +125,12 @@ def _explain(ctx, d, lines, start, n, mode=None):
             f.write("\n".join(lines[start:n]) + "\n")
         _, _, _, r = lib.tlc_validate(ctx, d, "Trace_Coins", "Trace_Coins.cfg", cut, timeout=600, env_extra=trace_env(explain=True, mode=mode))
         out = r.out
-        hits = [m.start() for m in re.finditer(r'<< "EXPLAINC?",', out)]
+        try:                                   # (the C08 part reads the proposal explanation off the same run)
+            from . import c08_coins
+            c08_coins._last_explain_output["out"] = out
+        except Exception:
+            pass
+        hits = [m.start() for m in re.finditer(r'<<\s*"EXPLAINC?",', out)]
         if hits:
             seg = out[hits[-1]:hits[-1] + 1800].split('<<"TRACE"')[0]
             return " ".join(seg.split())
